@@ -160,8 +160,10 @@ class Prop(Check):
                 "real Arpeggio parse tree -> Lean "
                 "process_node (parent links, containment lists; bool(obj) of the generated user classes is the model's "
                 "truthiness parameter); not exhibited: user classes that override "
-                "attribute access or define __slots__, object processors replacing objects (C13), grammars whose rule is "
-                "named 'sep'")
+                "attribute access or define __slots__, object processors replacing objects (C13); abstract-rule nodes "
+                "follow the repaired selection (first non-terminal child that is not a match-rule node), exercised by "
+                "match-rule calls around the rule reference of abstract alternatives; the build op also yields "
+                "PosDict.geo / posRuleDict of the containment tree (C34), compared with _pos_rule_dict")
     ASSUMPTIONS = [
         "get_children_of_type / get_parent_of_type compare class *names* (documented: 'typ: str or python class'); "
         "'of the given type' is read as exact class-name equality, not inheritance",
